@@ -10,6 +10,7 @@
 package main
 
 import (
+	"log"
 	"bufio"
 	"bytes"
 	"encoding/base64"
@@ -261,11 +262,12 @@ func matrix(rng *rand.Rand, extra int) []reqSpec {
 	id := base64.StdEncoding.EncodeToString([]byte(wip("tcp://127.%W%.9.1:9502")))
 	id2 := base64.StdEncoding.EncodeToString([]byte(wip("tcp://127.%W%.9.2:9502")))
 	bad := "!!!!" // not base64
-	for _, st := range []string{"empty", "started", "rebuilding", "rebuilding-long"} {
+	for _, st := range []string{"empty", "started", "rebuilding", "rebuilding-long", "full"} {
 		type rt struct{ m, p, a string }
 		routes := []rt{
 			{"GET", "/v1/volumes", ""}, {"GET", "/v1/volumes/dg==", ""}, {"GET", "/v1/volumes/zz", ""}, {"GET", "/v1/stats", ""}, {"GET", "/v1/checkpoint", ""},
 			{"POST", "/v1/volumes/dg==?action=start", "c-start"}, {"POST", "/v1/volumes/dg==?action=snapshot", "c-snapshot"},
+			{"POST", "/v1/volumes/dg==?action=shutdown", ""}, {"GET", "/metrics", ""},
 			{"POST", "/v1/volumes/dg==?action=revert", "c-revert"}, {"POST", "/v1/volumes/dg==?action=resize", "c-resize"},
 			{"POST", "/v1/volumes/dg==?action=setlogging", "setlogging"}, {"POST", "/v1/volumes/dg==?action=nosuch", ""},
 			{"DELETE", "/v1/volumes/dg==?action=deleteSnapshot", "c-deleteSnapshot"},
@@ -283,6 +285,29 @@ func matrix(rng *rand.Rand, extra int) []reqSpec {
 					continue
 				}
 				out = append(out, reqSpec{"controller", st, r.m, r.p, b, r.a})
+			}
+		}
+	}
+	// pairs: a state-changing request first (valid body), then every other request (valid body) — a
+	// handler may rely on something an earlier request has undone (a cached count, an entry it deleted)
+	for _, st := range []string{"started", "rebuilding", "full"} {
+		var ctlRoutes []reqSpec
+		for _, r := range out {
+			if r.Target == "controller" && r.State == st && r.Body == "valid" && r.Method != "GET" {
+				ctlRoutes = append(ctlRoutes, r)
+			}
+		}
+		for _, pre := range ctlRoutes {
+			for _, r := range ctlRoutes {
+				out = append(out, reqSpec{"controller", st + "+" + pre.Method + "|" + pre.Path + "|" + orDash(pre.Action), r.Method, r.Path, "valid", r.Action})
+			}
+			out = append(out, reqSpec{"controller", st + "+" + pre.Method + "|" + pre.Path + "|" + orDash(pre.Action), "GET", "/v1/replicas", "empty", ""})
+		}
+	}
+	for _, st := range []string{"closed", "open", "rebuilding"} {
+		for _, pre := range replicaActions {
+			for _, a := range replicaActions {
+				out = append(out, reqSpec{"replica", st + "+POST|/v1/replicas/1?action=" + pre + "|" + pre, "POST", "/v1/replicas/1?action=" + a, "valid", a})
 			}
 		}
 	}
@@ -355,7 +380,41 @@ func setupController(state string) (*controller.Controller, http.Handler, func()
 		w.Reps[wip("tcp://127.%W%.9.2:9502")] = &fake.Rep{Chain: []string{"volume-head-000.img"}, Rev: 1, Size: 1 << 20}
 		c.AddReplica(wip("tcp://127.%W%.9.2:9502"))
 	}
+	if state == "full" {
+		// all three replicas RW: the state in which snapshots, checkpoints and deletions are accepted
+		for _, h := range []string{"127.%W%.9.2", "127.%W%.9.7"} {
+			a := wip("tcp://" + h + ":9502")
+			w.Reps[a] = &fake.Rep{Chain: []string{"volume-head-000.img"}, Rev: 1, Size: 1 << 20}
+			c.AddReplica(a)
+			// the sync agent's part, then the promotion
+			w.Reps[a].Chain = append([]string{w.Reps[a].Chain[0]}, w.Reps[wip("tcp://127.%W%.9.1:9502")].Chain[1:]...)
+			c.VerifyRebuildReplica(a)
+		}
+	}
 	return c, crest.NewRouter(crest.NewServer(c)), func() {}
+}
+
+func orDash(s string) string {
+	if s == "" {
+		return "-"
+	}
+	return s
+}
+
+// splitState: "started+POST|/v1/volumes/dg==?action=shutdown|-" = the state "started" after that request
+func splitState(st string) (string, []string) {
+	i := strings.Index(st, "+")
+	if i < 0 {
+		return st, nil
+	}
+	p := strings.SplitN(st[i+1:], "|", 3)
+	if len(p) != 3 {
+		return st[:i], nil
+	}
+	if p[2] == "-" {
+		p[2] = ""
+	}
+	return st[:i], p
 }
 
 func classify(code int) string {
@@ -379,9 +438,10 @@ func doOne(r reqSpec, out *bufio.Writer) {
 		var cleanup func()
 		var tryLock func() bool
 		var follow string
+		base, pre := splitState(r.State)
 		switch r.Target {
 		case "replica":
-			s, hh, cl := setupReplica(r.State)
+			s, hh, cl := setupReplica(base)
 			h, cleanup = hh, cl
 			tryLock = func() bool {
 				if s.TryLock() {
@@ -392,7 +452,7 @@ func doOne(r reqSpec, out *bufio.Writer) {
 			}
 			follow = "/v1/replicas/1"
 		default:
-			c, hh, cl := setupController(r.State)
+			c, hh, cl := setupController(base)
 			h, cleanup = hh, cl
 			tryLock = func() bool {
 				if c.TryLock() {
@@ -403,9 +463,22 @@ func doOne(r reqSpec, out *bufio.Writer) {
 			}
 			follow = "/v1/volumes"
 		}
-		srv := httptest.NewServer(h)
+		srv := httptest.NewUnstartedServer(h)
+		var srvLog bytes.Buffer
+		srv.Config.ErrorLog = log.New(&srvLog, "", 0)
+		srv.Start()
 		defer srv.Close()
 		cl := &http.Client{Timeout: 6 * time.Second}
+		if pre != nil {
+			// the earlier request of a pair; what it answers is judged where it is sent alone
+			if req, err := http.NewRequest(pre[0], srv.URL+pre[1], body("valid", pre[2])); err == nil {
+				req.Header.Set("Content-Type", "application/json")
+				if resp, err := cl.Do(req); err == nil {
+					io.Copy(io.Discard, resp.Body)
+					resp.Body.Close()
+				}
+			}
+		}
 		n := 1
 		if strings.HasPrefix(r.Action, "start-x") {
 			fmt.Sscan(strings.TrimPrefix(r.Action, "start-x"), &n)
@@ -430,6 +503,13 @@ func doOne(r reqSpec, out *bufio.Writer) {
 					status = "hang"
 				} else {
 					status = "panic" // net/http recovered a handler panic and dropped the connection
+					time.Sleep(20 * time.Millisecond)
+					if strings.Contains(srvLog.String(), "types.Backend is *fake.Backend, not *remote.Remote") {
+						// replicator.RemainSnapshots type-asserts the backend of an ERR replica to *remote.Remote for a
+						// log line; in a controller process every backend is one, the scripted backend of this
+						// harness is not: an artifact of the harness, not a finding
+						status = "artifact-scripted-backend"
+					}
 				}
 				break
 			}
@@ -454,6 +534,10 @@ func doOne(r reqSpec, out *bufio.Writer) {
 					retry = "hang"
 				default:
 					retry = "panic"
+					time.Sleep(20 * time.Millisecond)
+					if strings.Contains(srvLog.String(), "types.Backend is *fake.Backend, not *remote.Remote") {
+						retry = "artifact-scripted-backend"
+					}
 				}
 			}
 		}
@@ -491,6 +575,9 @@ func doOne(r reqSpec, out *bufio.Writer) {
 
 func runChild(file string) {
 	logrus.SetOutput(io.Discard)
+	// as the replica process does (app/replica.go): without the reclaimer goroutine a replica object that
+	// a REQUEST creates (open, reload, revert) blocks in its next close / removedisk
+	go replica.CreateHoles()
 	for _, h := range []string{"127.%W%.9.1", "127.%W%.9.2", "127.%W%.9.7", "127.%W%.9.8", "127.%W%.9.9"} {
 		for i := 0; i < 50; i++ { // the previous child of this worker may still hold the port
 			if fake.Serve(wip(h)) == nil {
@@ -569,7 +656,7 @@ func modelGate(specs []reqSpec) map[string]string {
 	var lines []string
 	var keys []string
 	for _, s := range specs {
-		if s.Target == "replica" && s.Action != "" && !strings.HasPrefix(s.Action, "start-x") && s.Method == "POST" {
+		if s.Target == "replica" && s.Action != "" && !strings.HasPrefix(s.Action, "start-x") && s.Method == "POST" && !strings.Contains(s.State, "+") {
 			lines = append(lines, s.State+" "+s.Action)
 			keys = append(keys, s.String())
 		}
